@@ -25,7 +25,7 @@ BUILDS = (("plain", ["worker"]),)
 
 def budget(tier):
     if tier == "thorough":
-        return {"docs": 3000, "min_nontrivial": 800}
+        return {"docs": 1600, "min_nontrivial": 500}
     return {"docs": 240, "min_nontrivial": 60}
 
 
